@@ -25,6 +25,11 @@ CHECKS = {
          "Every payload length, GSO segment size x count x last-segment shape, ECN codepoint, explicit source address, receive-buffer shape and GRO on/off, on four socket-pair families, is sent through quinn-udp and fully received before the next; the oracle is the Transmit itself (segments byte-identical, in order, stride splits batches, ecn/addr/dst_ip conveyed). Offload-failure fallback is triggered from user space and the following plain transmits are checked.",
          "Kernel behaviour is not owned: a silent receive is retried and then recorded as inconclusive, only a received-but-wrong result is a violation; memory safety of the unsafe cmsg code as such is outside this family.",
          "DESIGN.md#c19"),
+ "C20": ("E3", "fault_enumeration",
+         "exhaustive insertion-point enumeration with differential (replay / time-translated / extra-call) runs of real endpoints",
+         "For a list of input histories (baselines incl. Retry, CID rotation, key update, rebinding, migration, and every single-deviation history) the run is repeated: identically (bit-identical trace incl. every poll_timeout value), with all Instants shifted by 1 s / 1 day / 10 years (identical relative trace), with a spurious handle_timeout or extra poll round inserted at EVERY step index on either side (identical packets, frames and events), and with all datagrams re-fed plus ten timeouts after both sides drained (no output). A timer may not fire more than 16 consecutive times at one instant.",
+         "Entropy supplied through the API (rng_seed, harness CID generator); inserted-call runs are compared on a timing-insensitive trace because pacing arithmetic may round instants differently.",
+         "DESIGN.md#c20"),
  "C02": ("E3+E2", "fault_enumeration",
          "exhaustive drop-mask enumeration + deviation-bounded stateless exploration of real endpoints",
          "Bounded liveness decided by running the real client and server endpoints under every drop subset of the first K datagrams (both directions) for a list of transport configurations and event-driven workloads, plus every <=k dup/delay/drop deviation in a window; each execution must complete the workload with every stream delivered and acknowledged.",
